@@ -1435,6 +1435,9 @@ func oddID(w *World, op Op) (id, kind string, known bool) {
 		return "---", "dashes", false
 	case "star":
 		return "*", "star", false
+	case "ctrl":
+		// a known ID with percent-encoded control characters around or inside it: it names no log
+		return []string{l.ID + "%0A", l.ID + "%0D%0A", l.ID[:len(l.ID)/2] + "%00" + l.ID[len(l.ID)/2:], l.ID + "%7F", "%C2%85" + l.ID}[op.MV%5], "ctrl", false
 	}
 	return l.ID, "known", true
 }
